@@ -231,7 +231,8 @@ func parseHeaders(h *protocol.RequestHeader, buf []byte) (int, error) {
 					continue
 				}
 				if utils.CaseInsensitiveCompare(s.Key, bytestr.StrConnection) {
-					if bytes.Equal(s.Value, bytestr.StrClose) {
+					// connection options are a case-insensitive, comma-separated list (RFC 7230 6.1)
+					if ext.HasHeaderValue(s.Value, bytestr.StrClose) {
 						h.SetConnectionClose(true)
 					} else {
 						h.SetConnectionClose(false)
